@@ -2,9 +2,9 @@
    Model: C06_Model.v (transcription of dune/common/parallel/variablesizecommunicator.hh), Spec: C06_Spec.v.
    A link is one ordered pair sender -> receiver; c06_lstep/c06_gstep are the transition systems of one link / of all
    processes; a schedule is the list of completion events MPI reports (any order, any interleaving).
-   c06_fixnew = false is the code in the tree, true the code after fixes/C06-1.patch. *)
+   c06_fixnew = true is the code in the tree (after fix d582b38 = fixes/C06-1.patch), false the code before it. *)
 From Coq Require Import List Arith Bool PeanoNat.
-From DuneV Require Import C06_Model C06_Spec C06_Proofs.
+From DuneV Require Import C06_Model C06_Model_Params C06_Spec C06_Proofs C06_Proofs_Case C06_Counters C06_Proofs_Params.
 Import ListNotations.
 
 (* ---------------------------------------------------------------- termination, all schedules, both code variants *)
@@ -27,7 +27,7 @@ Print Assumptions C06_terminates.
 
 (* ---------------------------------------------------------------- F-C06-1: termination is not return *)
 
-(* The code as it is in the tree: one link 0 -> 1, variable-size handle, three indices of size 0, buffer of 4 items.
+(* The code as it was before fix d582b38 (c06_fixnew = false): one link 0 -> 1, variable-size handle, three indices of size 0, buffer of 4 items.
    The run stops in a configuration in which no event is enabled, the receiver still has a posted receive and the
    sender has no request: process 1 never returns from forward(). *)
 Theorem C06_progress_refuted :
@@ -118,7 +118,7 @@ Print Assumptions C06_delivery_any_ctor.
 
 Theorem C06_ctor_buf_cases : forall b m, c06_ctor_buf (Some b) m = b /\ c06_ctor_buf None (Some b) = b /\
   c06_ctor_buf None None = NArith.BinNat.N.to_nat DuneV.Params_gen.c06_param_default_buffer.
-Proof. exact (fun b m => conj eq_refl (conj eq_refl eq_refl)). Qed.
+Proof. exact P_ctor_buf_cases. Qed.
 Print Assumptions C06_ctor_buf_cases.
 
 (* the global system is the product of the per-pair systems coupled only by the per-process barrier: every global
@@ -160,11 +160,134 @@ Theorem C06_size_phase : forall buf fixnew entries ridx src dst evs l',
 Proof. exact P_size_phase. Qed.
 Print Assumptions C06_size_phase.
 
-(* NOT PROVED (C06_delivery for the code as it is in the tree, c06_fixnew = false, under the guard
-   "every non-empty interface has a positive size somewhere", c06_some_positive): the start lemma of the data phase
-   for a receive tracker that has not been advanced over leading zero sizes is missing; without the guard the
-   statement is false (C06_progress_refuted).  Once fixes/C06-1.patch is committed the tree is the code the theorems
-   above are about; the check measures on every run which of the two model variants the tree follows. *)
+(* Not pursued: C06_delivery for the code BEFORE fix d582b38 (c06_fixnew = false) under the guard c06_some_positive.
+   That code is no longer in the tree; without the guard the statement is false (C06_progress_refuted).  The check
+   still measures on every run which of the two model variants the tree follows. *)
+
+(* ---------------------------------------------------------------- the property, sentence by sentence, at the level of a case *)
+
+(* MAIN THEOREM (variable-size handles).  c06_case_ok_var is the property's precondition as an executable predicate
+   (symmetric maps, matching list lengths, buffer >= 1 and >= every single index sent); nothing else is assumed:
+   the configuration c06_init builds exists, and under EVERY schedule the run stops because no event is enabled (not
+   for lack of fuel), every process has returned from forward()/backward(), and the observation -- per ordered pair
+   (p,q) the scatter calls of q with >= 1 item: (k-th receive index, count, items) -- is exactly the spec: the items
+   p's handle gathered for its k-th send index.  `backward` is universally quantified. *)
+Theorem C06_case_delivery : forall backward buf ni w np sizes es,
+  c06_case_ok_var backward buf np sizes es = true ->
+  exists c0, c06_init true backward true buf ni w np sizes es = Some c0 /\
+    forall sched, let r := c06_run (c06_case_fuel c0) sched c0 in
+      snd r = true /\ c06_returned (fst r) = true /\ Some (c06_observe (fst r)) = c06_spec_case backward ni w np sizes es.
+Proof. exact P_case_delivery_var. Qed.
+Print Assumptions C06_case_delivery.
+
+(* the same for fixed-size handles (both code variants: the fix does not touch this path) *)
+Theorem C06_case_delivery_fixed : forall backward fixnew buf ni w np sizes es,
+  c06_case_ok_fixed backward buf np sizes es = true ->
+  exists c0, c06_init false backward fixnew buf ni w np sizes es = Some c0 /\
+    forall sched, let r := c06_run (c06_case_fuel c0) sched c0 in
+      snd r = true /\ c06_returned (fst r) = true /\ Some (c06_observe (fst r)) = c06_spec_case backward ni w np sizes es.
+Proof. exact P_case_delivery_fixed. Qed.
+Print Assumptions C06_case_delivery_fixed.
+
+(* C06_progress, positive form for the current code: every configuration reachable by any event sequence in which
+   some process has not yet returned enables an event (the refuted statement above is about the code before d582b38) *)
+Theorem C06_progress : forall buf ds np evs c,
+  Forall (fun d => c06_link_ok_var buf (v_entries d) (v_ridx d) = true /\ v_src d < np /\ v_dst d < np) ds ->
+  c06_exec (var_cfg buf ds np) evs = Some c -> c06_returned c = false -> c06_enabled c <> [].
+Proof. exact P_progress_var. Qed.
+Print Assumptions C06_progress.
+
+Theorem C06_progress_fixed : forall buf fixnew ds np evs c,
+  Forall (fun d => c06_link_ok_fixed buf (d_f d) (d_entries d) (d_ridx d) = true) ds ->
+  c06_exec (fixed_cfg buf fixnew ds np) evs = Some c -> c06_returned c = false -> c06_enabled c <> [].
+Proof. exact P_progress_fixed. Qed.
+Print Assumptions C06_progress_fixed.
+
+(* the runner performs nothing but executions of the transition system (so statements about c06_exec apply to it) *)
+Theorem C06_run_is_execution : forall fuel sched c, exists evs, c06_exec c evs = Some (fst (c06_run fuel sched c)).
+Proof. exact run_exec. Qed.
+Print Assumptions C06_run_is_execution.
+
+(* "no item is lost, duplicated, truncated or attributed to another index, the receiver is told the correct count":
+   what the spec (and hence every run) hands to scatter is, concatenated, exactly the concatenation of what was
+   gathered, in order; the counts are the non-zero gather sizes in order; each count is the number of items handed over *)
+Theorem C06_exactly_once_in_order : forall entries ridx, length entries = length ridx ->
+  concat (map snd (c06_spec_link entries ridx)) = concat entries /\
+  map (fun c : c06_call => snd (fst c)) (c06_spec_link entries ridx) = filter (fun n => negb (n =? 0)) (map (@length nat) entries) /\
+  Forall (fun c : c06_call => snd (fst c) = length (snd c) /\ snd (fst c) <> 0) (c06_spec_link entries ridx).
+Proof. exact spec_items. Qed.
+Print Assumptions C06_exactly_once_in_order.
+
+(* forward and backward are symmetric: a backward communication is the forward communication of the transposed
+   interface (first and second list of every map entry exchanged), configuration and spec alike *)
+Theorem C06_backward_is_forward_transposed : forall variable fixnew buf ni w np sizes es,
+  c06_init variable true fixnew buf ni w np sizes es = c06_init variable false fixnew buf ni w np sizes (map c06_swap es) /\
+  c06_spec_case true ni w np sizes es = c06_spec_case false ni w np sizes (map c06_swap es).
+Proof. exact P_backward_is_forward_transposed. Qed.
+Print Assumptions C06_backward_is_forward_transposed.
+
+(* OUTSIDE the precondition "the buffer can hold the largest single index": such an index is not rejected (no
+   exception, no error return): PackEntries packs nothing, no Issend is issued, the send tracker stays unfinished with a
+   null request, and the peer waits forever.  General fact + a concrete stuck run (1 index of 3 items, buffer 2). *)
+Theorem C06_oversize_not_rejected :
+  (forall buf e t nx, buf < length e ->
+     c06_pack buf (mkS 0 (e :: t) nx) = ([], mkS 0 (e :: t) nx) /\
+     c06_send_setup buf (mkS 0 (e :: t) nx) = (mkS 0 (e :: t) nx, SNull, [])) /\
+  (let c := fst (c06_run (c06_case_fuel c06_oversize_cfg) [] c06_oversize_cfg) in
+   c06_enabled c = [] /\ c06_returned c = false /\ map c06_log (c_links c) = [[]]).
+Proof. exact (conj P_oversize_never_packed P_oversize_stuck). Qed.
+Print Assumptions C06_oversize_not_rejected.
+
+(* the communicator object: copy construction and copy assignment carry over buffer size and interface identity and
+   own a fresh communicator; self-assignment changes nothing; the buffer size is the one the constructor fixed *)
+Theorem C06_special_members : forall explicit macro iface f1 f2 f3 this,
+  let a := c06_vsc_ctor explicit macro iface f1 in
+  (vsc_buf (c06_vsc_copy a f2) = vsc_buf a /\ vsc_iface (c06_vsc_copy a f2) = iface /\ vsc_comm (c06_vsc_copy a f2) = f2) /\
+  (vsc_buf (c06_vsc_assign this a false f3) = vsc_buf a /\ vsc_iface (c06_vsc_assign this a false f3) = iface /\
+   vsc_comm (c06_vsc_assign this a false f3) = f3) /\
+  c06_vsc_assign a a true f3 = a /\
+  vsc_buf a = c06_ctor_buf explicit macro.
+Proof. exact P_vsc_members. Qed.
+Print Assumptions C06_special_members.
+
+(* the fixedSize scalar and the size/data messages use different tags (re-read from the source on every run), which is
+   what allows the model to keep them on separate channels; send and receive side of each channel agree on the tag *)
+Theorem C06_tags_distinct : c06_channels_separate = true.
+Proof. exact P_tags_distinct. Qed.
+Print Assumptions C06_tags_distinct.
+
+(* ---------------------------------------------------------------- the counters of the progress loops *)
+
+(* size_to_send/size_to_recv and no_to_send/no_to_recv (initialised by std::count_if over the request vectors,
+   decremented by what checkAndContinue returns: 1 for a completed request whose tracker is finished, 0 otherwise)
+   equal, after every event of every execution of a valid variable-size case, the number of non-null requests of the
+   process (c06_counters_step is the loop arithmetic, counters_exact the claim) ... *)
+Theorem C06_counters_track : forall buf ds c e c' k, GInvV buf ds c -> c06_gstep c e = Some c' ->
+  counters_exact k c -> counters_exact (c06_counters_step c e c' k) c'.
+Proof. exact P_counters_step. Qed.
+Print Assumptions C06_counters_track.
+
+(* ... hence "while(no_to_send+no_to_recv)" is left exactly when every request of the process is null, which is the
+   condition the transition system uses for the per-process switch and for "has returned" ... *)
+Theorem C06_counters_zero_iff_requests_null : forall buf ds np evs c' k',
+  Forall (fun d => c06_link_ok_var buf (v_entries d) (v_ridx d) = true /\ v_src d < np /\ v_dst d < np) ds ->
+  c06_exec_k (var_cfg buf ds np) (c06_counters_init (var_cfg buf ds np)) evs = Some (c', k') ->
+  forall p, fst (k' p) + snd (k' p) = 0 <->
+            forall l, In l (c_links c') -> (l_src l = p -> l_sreq l = SNull) /\ (l_dst l = p -> l_rreq l = RNull).
+Proof. exact P_counters_var. Qed.
+Print Assumptions C06_counters_zero_iff_requests_null.
+
+(* ... and at the end of every run, under every schedule, all counters of all processes are zero *)
+Theorem C06_counters_end_of_run : forall buf ds np sched,
+  Forall (fun d => c06_link_ok_var buf (v_entries d) (v_ridx d) = true /\ v_src d < np /\ v_dst d < np) ds ->
+  let c0 := var_cfg buf ds np in
+  let k := snd (c06_run_k (c06_case_fuel c0) sched c0 (c06_counters_init c0)) in
+  forall p, k p = (0, 0).
+Proof. exact P_counters_run. Qed.
+Print Assumptions C06_counters_end_of_run.
+(* Not modelled: the counters of communicateFixedSize (no_size_to_recv/no_to_send/no_to_recv start at interface_->size()
+   minus the empty trackers and the receive branch is gated by validRecvRequests); for fixed-size handles the
+   transition system's "all requests null, scalar reported" condition stands for them, tied by the correspondence only. *)
 
 (* ---------------------------------------------------------------- non-vacuity *)
 Example C06_ex_rounds : c06_pack_var 4 0 [[7]; []; [8; 9]; [1; 2]] = ([7; 8; 9], [[1; 2]]).
@@ -189,3 +312,28 @@ Proof. vm_compute. repeat split; repeat constructor. Qed.
 Example C06_ex_var_link : c06_link_ok_var 3 [[]; [1;2;3]; []; [4]] [5;6;7;8] = true /\
   c06_spec_link [[]; [1;2;3]; []; [4]] [5;6;7;8] = [(6,3,[1;2;3]); (8,1,[4])].
 Proof. vm_compute. split; reflexivity. Qed.
+
+Example C06_ex_case :
+  let es := [mkE 0 0 [1] [0]; mkE 0 1 [0;1;1] []; mkE 1 0 [] [1;0;0]] in
+  let sizes := [[2;0];[1;1]] in
+  c06_case_ok_var false 2 2 sizes es = true /\ c06_case_ok_var true 2 2 sizes es = true /\
+  c06_spec_case false 2 4 2 sizes es = Some [(0,0,[]); (0,1,[(1,2,[0;1])]); (1,0,[])] /\
+  (exists c0, c06_init true false true 2 2 4 2 sizes es = Some c0 /\
+     Some (c06_observe (fst (c06_run (c06_case_fuel c0) [5;3;1;4;1;5;9;2;6] c0))) = c06_spec_case false 2 4 2 sizes es).
+Proof. vm_compute. repeat split. eexists. split; reflexivity. Qed.
+
+Example C06_ex_case_fixed :
+  let es := [mkE 0 0 [1] [0]; mkE 0 1 [0;1;1] []; mkE 1 0 [] [1;0;0]] in
+  let sizes := [[2;2];[2;2]] in
+  c06_case_ok_fixed false 2 2 sizes es = true /\
+  c06_spec_case false 2 4 2 sizes es = Some [(0,0,[(0,2,[4;5])]); (0,1,[(1,2,[0;1]); (0,2,[4;5]); (0,2,[4;5])]); (1,0,[])].
+Proof. vm_compute. split; reflexivity. Qed.
+
+Example C06_ex_exactly_once : concat (map snd (c06_spec_link [[]; [1;2;3]; []; [4]] [5;6;7;8])) = [1;2;3;4].
+Proof. vm_compute; reflexivity. Qed.
+
+Example C06_ex_counters :
+  let c0 := var_cfg 3 [mkVD 0 1 [[]; [1;2;3]; []; [4]] [5;6;7;8]; mkVD 1 0 [[]; []] [3;3]] 2 in
+  c06_counters_init c0 0 = (1, 1) /\ c06_counters_init c0 1 = (1, 1) /\
+  snd (c06_run_k (c06_case_fuel c0) [2;7;1;8;2;8] c0 (c06_counters_init c0)) 1 = (0, 0).
+Proof. vm_compute. repeat split. Qed.
